@@ -1,7 +1,7 @@
 (* C09 -- property theorems only: each is closed by [exact] of a lemma proved elsewhere. *)
 From Coq Require Import List Arith ZArith NArith PArith.
 From Muscle Require Import Cont.HtModel Cont.HtStep Cont.HtIdeal Cont.HtLemmas Cont.HtRepr Cont.HtWalk
-                           Cont.HtTable Cont.HtInv Cont.HtSafe Cont.HtSafeAll Cont.HtRefine.
+                           Cont.HtTable Cont.HtInv Cont.HtSafe Cont.HtSafeAll Cont.HtRefine Cont.HtPend Cont.HtTravW Cont.HtTravOps Cont.HtTravThm Cont.HtSorted Cont.HtSortedThm Gen.Consts.
 Import ListNotations.
 
 (* InsertIterationEntry is list insertion: if the links of h form the list l1 ++ l2 and e is an
@@ -79,6 +79,76 @@ Theorem C09_ht_refines : forall var dcap nt ni ops,
    outs1 var dcap (init_world dcap nt ni) ops = outs0 var dcap (abs_world (init_world dcap nt ni)) ops).
 Proof. exact init_refines. Qed.
 Print Assumptions C09_ht_refines.
+
+(* Traversals.  [tr_ok i w ops]: ops consists of advances of iterator i and of operations that do not
+   operate on iterator i and are calm ([calm]: every operation except those that may relink a
+   surviving entry -- MoveTo*, PutAt*/PutBefore/PutBehind, Sort*, Reposition, SetAutoSortEnabled,
+   Put on an existing key of an auto-sorting table, CopyFrom, Intersect -- which are admitted only
+   when they leave the world unchanged).  [trav i w ops]: the entries newly shown by the advances. *)
+
+(* no entry is shown twice *)
+Theorem C09_iter_no_dup : forall var dcap i ops w, WF w -> reg w i -> tr_ok var dcap i w ops ->
+  NoDup (trav var dcap i w ops).
+Proof. exact trav_nodup. Qed.
+Print Assumptions C09_iter_no_dup.
+
+(* nothing that stays in the iterator's table is skipped: it is shown, or still to come *)
+Theorem C09_iter_no_skip : forall var dcap i ops w, WF w -> reg w i -> tr_ok var dcap i w ops ->
+  forall n, In n (pending w i) -> stays var dcap i n w ops ->
+  In n (trav var dcap i w ops) \/ In n (pending (run1 var dcap w ops) i).
+Proof. exact trav_noskip. Qed.
+Print Assumptions C09_iter_no_skip.
+
+(* a complete traversal: an iterator created by GetIterator() (either direction) on a non-empty table
+   and advanced, interleaved with any calm operations on any tables and any operations on other
+   iterators, until HasData() is false, has shown every entry that was in its table from creation to
+   the end exactly once, and no entry twice *)
+Theorem C09_traversal_complete : forall var dcap w0 i t bw ops, WF w0 ->
+  i < length (its w0) -> t < length (tabs w0) -> cnt (gett w0 t) <> 0 ->
+  let w := fst (step1 var dcap w0 (OIterNew i t bw)) in
+  tr_ok var dcap i w ops ->
+  shown (run1 var dcap w ops) i = None ->
+  let V := opt_list (cur w i) ++ trav var dcap i w ops in
+  NoDup V /\ (forall n, In n (ids (gett w0 t)) -> stays var dcap i n w ops -> In n V).
+Proof. exact traversal_complete. Qed.
+Print Assumptions C09_traversal_complete.
+
+(* non-vacuity of the traversal premises: removals of the current and of the next entry, an insertion
+   and a growth of the table between the advances of a forward iterator *)
+Example C09_traversal_nonvacuous :
+  let w0 := run1 VPlain 7%N (init_world 7%N 1 1) [OPut 0 1%Z 1%Z; OPut 0 2%Z 2%Z; OPut 0 3%Z 3%Z; OPut 0 4%Z 4%Z] in
+  let w := fst (step1 VPlain 7%N w0 (OIterNew 0 0 false)) in
+  let ops := [ORemove 0 1%Z; ORemove 0 2%Z; OIterAdv 0; OPut 0 9%Z 9%Z; OEnsure 0 300%N false; OIterAdv 0; OIterAdv 0; OIterAdv 0; OIterAdv 0] in
+  tr_ok VPlain 7%N 0 w ops /\ shown (run1 VPlain 7%N w ops) 0 = None /\ length (trav VPlain 7%N 0 w ops) = 3.
+Proof.
+  cbv zeta. split; [|split; vm_compute; reflexivity].
+  repeat (first [apply tr_adv | apply tr_mut; [reflexivity|cbn [calm]; try exact I; left; reflexivity|] | apply tr_nil]).
+Qed.
+
+(* the auto-sorting classes (OrderedKeysHashtable: var = VKeys, OrderedValuesHashtable: var = VVals):
+   in every world reachable by operations that keep auto-sort enabled and do not explicitly reorder
+   ([keeps_sorted]: everything except MoveTo*, GetAndMoveTo*, PutAt*/PutBefore/PutBehind,
+   SortByKey/SortByValue and SetAutoSortEnabled), every table is in sorted order (ties in insertion
+   order, as fixed by the refinement to the ideal insertion [l0_insert_ordered]) *)
+Theorem C09_sorted_inv : forall var dcap, var <> VPlain -> forall nt ni ops,
+  Forall (fun o => keeps_sorted o = true) ops ->
+  let w := run1 var dcap (init_world dcap nt ni) ops in
+  forall t, t < length (tabs w) -> asort (gett w t) = true /\ sorted var (abs (gett w t)).
+Proof. exact sorted_inv. Qed.
+Print Assumptions C09_sorted_inv.
+
+Example C09_sorted_nonvacuous :
+  abs (gett (run1 VVals 7%N (init_world 7%N 1 0)
+              [OPut 0 1%Z 5%Z; OPut 0 2%Z 3%Z; OPut 0 3%Z 5%Z; OPut 0 4%Z 3%Z; OPut 0 2%Z 9%Z; ORemove 0 1%Z]) 0)
+  = [(4%Z, 3%Z); (3%Z, 5%Z); (2%Z, 9%Z)].
+Proof. vm_compute. reflexivity. Qed.
+
+(* side condition on the translated constant: the default capacity is positive (an empty table can
+   accept a Put) and below the first index-width threshold (a default table uses 8-bit indices) *)
+Theorem C09_default_capacity_ok :
+  (0 < c_MUSCLE_HASHTABLE_DEFAULT_CAPACITY)%N /\ (c_MUSCLE_HASHTABLE_DEFAULT_CAPACITY < 255)%N.
+Proof. exact default_capacity_ok. Qed.
+Print Assumptions C09_default_capacity_ok.
 
 (* non-vacuity: a reachable world with a live registered iterator whose cookie is an entry *)
 Example C09_iter_safe_nonvacuous :
